@@ -417,6 +417,10 @@ class MetaInfo:
     alphabet = list('ab=|()" \n')
     want_long = False
     long_texts = []
+    binary = False
+
+    def wire(self, t):
+        return t
 
     def __init__(self, r):
         import sourcer.parser as P
@@ -451,7 +455,12 @@ def gen_universe(r):
     named0 = r.random() < 0.6
     fam_texts = None
     long_texts = []
-    if r.random() < 0.45:
+    kind = None
+    x0 = r.random()
+    if x0 < 0.07:
+        s0, g0, fam_texts = spec.binary_root(r, named0)
+        long_texts = ['e\xff' + 'abab,abab;ab' * r.choice([40, 150, 500]) + '\x00']
+    elif x0 < 0.5:
         s0, g0, fam_texts, kind, long_texts = family(r, named0)
     else:
         s0, g0 = spec.gen_root(r, named0, hook_p=0.8)
@@ -485,7 +494,7 @@ def gen_universe(r):
     m0.want_long = not fam_texts
     m0.alias_shape = bool(fam_texts) and kind == 'lookahead-list'
     infos.append(m0)
-    if named0 and r.random() < 0.35:
+    if named0 and not m0.binary and r.random() < 0.35:
         s1, g1 = spec.gen_child(r, g0, hook_p=0.7)
         for it in s1['items']:
             if it['k'] == 'rule' and not it.get('ignore'):
@@ -534,9 +543,9 @@ def execute(plan, schedule=None, refs=None):
             env.count('calls_nontrivial')
         if chains.get(op['mod']) == ('<builtin meta>',):
             env.count('calls_on_shipped_meta_parser')
-        if len(op['text']) >= 300:
+        if C.text_len(op) >= 300:
             env.count('long_calls')
-        bound = len(rec.rule_codes) * (len(op['text']) + 1)
+        bound = len(rec.rule_codes) * (C.text_len(op) + 1)
         if c['starts'] > bound:
             viol.append({'check': 'bound', 'where': where, 'op': U.strip_nests(op), 'starts': c['starts'], 'bound': bound})
         for v in c['viol']:
@@ -550,7 +559,7 @@ def execute(plan, schedule=None, refs=None):
                 env.count('result_identity_checked')
         # semantic transparency of the memo: the same call under a memo-less driver
         if (not op.get('script') and c.get('root_final') is not None and memoless_done < 3
-                and c.get('root_name') and (len(op['text']) <= 40 or chains.get(op['mod']) == ('<builtin meta>',))):
+                and c.get('root_name') and (C.text_len(op) <= 40 or chains.get(op['mod']) == ('<builtin meta>',))):
             memoless_done += 1
             chain = chains.get(op['mod'])
             m = memoless_outcome(chain, op, c['root_name'], 40 * r['steps'] + 20_000)
@@ -628,7 +637,7 @@ class Planner(C.Planner):
         if depth == 0 and self.wr.random() < LONG_P:
             t = self.long_text(mid)
             if t is not None:
-                op = {'op': 'parse', 'mod': mid, 'entry': 'parse', 'text': t, 'pos': 0, 'full': True, 'budget': U.HARD_CAP}
+                op = {'op': 'parse', 'mod': mid, 'entry': 'parse', 'text': self.infos[mid].wire(t), 'pos': 0, 'full': True, 'budget': U.HARD_CAP}
                 rec = self.ref(op)
                 op['_steps'] = rec['steps']
                 self.long_ops = getattr(self, 'long_ops', 0) + 1
@@ -708,7 +717,7 @@ def summarise(r):
         for where, op, rec in r['flat'][:6]:
             c = rec.get('c07')
             if c and op['op'] == 'parse' and 'starts' in c:
-                calls.append({'where': where, 'entry': op['entry'], 'text': op['text'][:40],
+                calls.append({'where': where, 'entry': op['entry'], 'text': (op['text'] if isinstance(op['text'], list) else op['text'][:40]),
                               'rule_body_starts': c['starts'], 'served_from_memo': c['served'],
                               'answers_checked': c['checked']})
         s['sample'] = {'index': r['index'], 'policy': plan['policy'], 'universe': [m['desc'] for m in plan['universe']][:2],
